@@ -218,6 +218,13 @@ type frange struct {
 }
 
 func (i *interpreter) learnFRange(c *Term, v bool) {
+	if c.Op == OpFIsNaN && !v && len(c.Args) == 1 && !c.Args[0].IsConst() {
+		// known not to be NaN: an (unbounded) interval entry records exactly that
+		if _, ok := i.franges[c.Args[0].ID]; !ok {
+			i.franges[c.Args[0].ID] = frange{math.Inf(-1), math.Inf(1)}
+		}
+		return
+	}
 	if len(c.Args) != 2 || !c.Args[0].Sort.IsFP() {
 		return
 	}
@@ -239,7 +246,23 @@ func (i *interpreter) learnFRange(c *Term, v bool) {
 		i.franges[t.ID] = r
 	}
 	if !v {
-		return // a false comparison may be due to NaN: learn nothing
+		// a false comparison may be due to NaN: learn only about a term already known not to be NaN
+		notNaN := func(t *Term) bool { _, ok := i.franges[t.ID]; return ok }
+		switch c.Op {
+		case OpFLt: // not (a < b)  =>  a >= b
+			if b.IsConst() && notNaN(a) && fconst(b) == fconst(b) {
+				set(a, fconst(b), math.Inf(1))
+			} else if a.IsConst() && notNaN(b) && fconst(a) == fconst(a) {
+				set(b, math.Inf(-1), fconst(a))
+			}
+		case OpFLe: // not (a <= b)  =>  a > b
+			if b.IsConst() && notNaN(a) && fconst(b) == fconst(b) {
+				set(a, math.Nextafter(fconst(b), math.Inf(1)), math.Inf(1))
+			} else if a.IsConst() && notNaN(b) && fconst(a) == fconst(a) {
+				set(b, math.Inf(-1), math.Nextafter(fconst(a), math.Inf(-1)))
+			}
+		}
+		return
 	}
 	switch c.Op {
 	case OpFLe, OpFLt: // a <= b (or <) holds: neither is NaN
